@@ -240,7 +240,9 @@ class CliCheck(object):
             'rule': rules[prop],
             'samples': self.samples,
             'worlds': st['worlds'], 'jobs': st['jobs'], 'worlds_with_visits': st['worlds_with_visits'],
-            'runs_per_hour': int(st['runs'] * 3600 / max(wall, 1e-6)), 'worlds_per_hour': int(st['worlds'] * 3600 / max(wall, 1e-6)),
+            'runs_per_hour': int(st['runs'] * 3600 / max(wall, 1e-6)), 'seeds_per_hour': int(st['worlds'] * 3600 / max(wall, 1e-6)),
+            'seed_derivation': 'every world has its own PRNG value: sha256(VERIF_SEED, property, job index); its fault plans are enumerated, not drawn',
+            'worlds_per_hour': int(st['worlds'] * 3600 / max(wall, 1e-6)),
             'explore_wall_s': round(wall, 1),
             'simulated_time': 'not applicable: the command reads no clock; I/O events are the logical time',
             'io_events': st['events'], 'model_visits': st['visits'], 'model_api_calls': st['model_api_calls'],
